@@ -284,6 +284,9 @@ class Model():
                     self.remove_association(association)
                     return
                 field.remove(asset)
+                assocs = list(asset.associations)
+                assocs.remove(association)
+                asset.associations = assocs
 
         if not found:
             raise LookupError(f'Asset "{asset.name}"({asset.id}) is not '
